@@ -106,7 +106,12 @@ structure FrameAcc (env : Env) (f : Frame) (st : NsStack) : Prop where
   val : ValAcc env st f.value
   kids : ∀ k ∈ f.rkids, TreeAcc env st k
   top : f.value.isElement = true → ∃ st', st = rdecls f.rkids :: st'
-  kind : nsPair f.value = none
+  kind : f.value.isElement = true ∨ f.value = .document
+
+theorem kind_nsPair {v : Value} (h : v.isElement = true ∨ v = .document) : nsPair v = none := by
+  rcases h with h | h
+  · cases v <;> simp_all [Value.isElement, nsPair]
+  · subst h; rfl
 
 /-- The scope of the parent of an open node. -/
 def parentStack (f : Frame) (st : NsStack) : NsStack := if f.value.isElement then st.tail else st
@@ -260,7 +265,7 @@ theorem openElement_acc {b b' : Builder} (hf : EnvFacts b.env) (hc : ChainAcc b.
           { env := env1, seenIds := b.seenIds, idNodes := b.idNodes, seenNames := [],
             rkids := namespaceKids eb.namespaces, aspans := [] } st (hr1.facts hf) hE.attrs hkids0 hst
         simp only at r1 r3
-        refine ⟨hr1.trans r1, ⟨⟨?_, r2, fun _ => ⟨b.nsStack, ?_⟩, rfl⟩, ?_⟩, rfl⟩
+        refine ⟨hr1.trans r1, ⟨⟨?_, r2, fun _ => ⟨b.nsStack, ?_⟩, .inl rfl⟩, ?_⟩, rfl⟩
         · refine ValAcc.mono r1.app ⟨hlt, ?_, hq⟩
           rw [hloc]; exact hE.name
         · rw [r3, rdecls_namespaceKids]
